@@ -135,7 +135,7 @@ def run_pairwise(s1, s2, moltype, mat, d, e, local, limit):
         res["tb"] = None
     # where the local alignment sits in the inputs
     offs = []
-    for nm, full in (("a", s1), ("b", s2)):
+    for nm, full in (("a", s1.upper()), ("b", s2.upper())):
         sub = rows[nm].replace("-", "")
         o = None
         try:
@@ -264,12 +264,14 @@ def gen_pair(rng, letters, maxlen):
     return kind, a, (pre + a[i:j] + post)[:maxlen]
 
 
-def gen_matrix(rng, moltype):
+def gen_matrix(rng, moltype, symmetric=False):
     from cogent3.align import align
 
     letters = DNA_ORDER(moltype)
     n = len(letters)
     kind = rng.choice(["structured", "structured", "generic", "rand_sym_int", "rand_asym_float", "flat"])
+    if symmetric and kind in ("rand_asym_float", "flat"):
+        kind = "rand_sym_int"
     if kind == "structured" and moltype == "dna":
         m, ts, tv = rng.choice([(10, -1, -8), (5, -4, -4), (2, -1, -1), (1, -1, -1), (10, -9, -9), (3, 1, -2), (1, 0, 0)])
         S = align.make_dna_scoring_dict(m, ts, tv)
@@ -297,13 +299,51 @@ def gen_gap(rng):
 # --------------------------------------------------------------------------
 # one pairwise case against the spec (Lean optimum + exact path score)
 # --------------------------------------------------------------------------
+def user_hmm(moltype, mat, d, e, s1, s2):
+    """the pair HMM the *user's* parameters denote, built here independently of cogent3 (documented construction:
+    classic gap costs d/e -> row-normalised exp(-cost) over X, Y, M with no X<->Y, BEGIN = stationary distribution,
+    END = 1; match emission of (s1 motif a, s2 motif b) = log(len(alphabet)) + Sd[a, b]; gap emissions 0).
+    None when a sequence has characters outside the alphabet (ambiguity codes)."""
+    import numpy
+
+    letters = DNA_ORDER(moltype)
+    n = len(letters)
+    if any(c not in letters for c in s1 + s2):
+        return None
+    with numpy.errstate(all="ignore"):
+        C = numpy.array([[e, numpy.inf, 0.0], [numpy.inf, e, 0.0], [d, d, 0.0]], float)
+        T3 = numpy.exp(-C)
+        T3 = T3 / T3.sum(axis=1)[:, None]
+        w, v = numpy.linalg.eig(T3.T)
+        k = int(numpy.argmin(abs(w - 1.0)))
+        pi = numpy.real(v[:, k])
+        pi = pi / pi.sum()
+        T = numpy.zeros((5, 5))
+        T[1:4, 1:4] = T3
+        T[0, 1:4] = pi
+        T[:, 4] = 1.0
+        logT = numpy.log(T)
+    M = numpy.array([[[math.log(n) + float(mat[a][b]) for b in range(n)] for a in range(n)]])
+    Z = numpy.zeros((1, n))
+    return dict(sd=[(1, 0, 1, 0), (2, 0, 0, 1), (3, 0, 1, 1)], T=logT, M=M, X=Z, Y=Z,
+                xi=[letters.index(c) for c in s1], yi=[letters.index(c) for c in s2])
+
+
+def is_asymmetric(mat):
+    return any(mat[i][j] != mat[j][i] for i in range(len(mat)) for j in range(i))
+
+
+LIMITS = {"full": 10**8, "hirschberg": 0, "mixed": 150}
+
+
 def _prepare_case(case):
-    """runs the real code for one configuration; returns (real results, driver requests)"""
+    """runs the real code for one configuration under every HIRSCHBERG_LIMIT setting (local alignment too);
+    returns (real results, driver requests)"""
     s1, s2, moltype, mat, d, e, local = case["s1"], case["s2"], case["moltype"], case["mat"], case["d"], case["e"], case["local"]
-    runs = {"full": run_pairwise(s1, s2, moltype, mat, d, e, local, 10**8)}
-    if not local:
-        runs["hirschberg"] = run_pairwise(s1, s2, moltype, mat, d, e, local, 0)
+    runs = {algo: run_pairwise(s1, s2, moltype, mat, d, e, local, lim) for algo, lim in LIMITS.items()}
     reqs = {}
+    S1, S2 = s1.upper(), s2.upper()
+    uh = user_hmm(moltype, mat, d, e, S1, S2) if S1 and S2 else None
     for algo, r in runs.items():
         if "exc" in r:
             continue
@@ -316,6 +356,10 @@ def _prepare_case(case):
                 reqs[algo] = ("viterbi", hmm_request(h, local, path, i0, j0))
             except (ValueError, AssertionError) as ex:
                 r["bad_hmm"] = str(ex)
+            if uh is not None and algo == "full":
+                upath = rows_to_path(uh, *r["rows"])
+                if upath is not None:
+                    reqs["user"] = ("viterbi", hmm_request(uh, local, upath, i0, j0))
     return runs, reqs
 
 
@@ -335,6 +379,7 @@ def check_pair_cases(ctx, out, cases, kind_for_model="corr"):
         local = case["local"]
         mode = "local" if local else "global"
         inp = {k: case[k] for k in ("s1", "s2", "moltype", "matname", "mat", "d", "e", "local")}
+        inp["asymmetric"] = is_asymmetric(case["mat"])
         bump(out, "pair_mode", mode)
         bump(out, "pair_kind", case.get("tag", "?"))
         bump(out, "matrix", case["matname"].split("(")[0])
@@ -355,9 +400,9 @@ def check_pair_cases(ctx, out, cases, kind_for_model="corr"):
                 continue
             d1, d2 = r1.replace("-", ""), r2.replace("-", "")
             if local:
-                ok = d1 in case["s1"] and d2 in case["s2"] and r["offs"][0] >= 0 and r["offs"][1] >= 0
+                ok = d1 in case["s1"].upper() and d2 in case["s2"].upper() and r["offs"][0] >= 0 and r["offs"][1] >= 0
             else:
-                ok = d1 == case["s1"] and d2 == case["s2"]
+                ok = d1 == case["s1"].upper() and d2 == case["s2"].upper()
             if not ok:
                 add_failure(out, "spec", "degapped rows are not the inputs" + (" (a contiguous part)" if local else ""), ainp,
                             [case["s1"], case["s2"]], [r1, r2], sig=f"pw:degap:{mode}:{algo}")
@@ -421,22 +466,76 @@ def check_pair_cases(ctx, out, cases, kind_for_model="corr"):
             if nontrivial:
                 out["nontrivial"].add((case["s1"], case["s2"], case["matname"], case["d"], case["e"], mode, algo))
             bump(out, "has_gaps", ("-" in r1) or ("-" in r2))
-            if algo == "hirschberg":
-                bump(out, "hirschberg_dp_calls", min(r["calls"], 50) // 10 * 10)
+            if algo != "full":
+                bump(out, f"{algo}_dp_calls", min(r["calls"], 50) // 10 * 10)
             if len(out["samples"]) < 6 and nontrivial and "-" in r1 + r2 and len(r1) > 6:
                 out["samples"].append(dict(s1=case["s1"], s2=case["s2"], matrix=case["matname"], d=case["d"], e=case["e"], mode=mode,
                                            algo=algo, rows=[r1, r2], reported=score, exact_optimum=float(opt), exact_path_score=float(ps)))
-        # (4) same input through both code paths
-        if not local and "hirschberg" in runs and "exc" not in runs["full"] and "exc" not in runs["hirschberg"]:
-            a, b = runs["full"], runs["hirschberg"]
-            bump(out, "hirschberg_used", b["calls"] > 1)
+        # (4) same input under every HIRSCHBERG_LIMIT setting (global: linear-space vs full DP; local: must be unaffected)
+        a = runs["full"]
+        for algo in ("hirschberg", "mixed"):
+            b = runs[algo]
+            if ("exc" in a) != ("exc" in b):
+                add_failure(out, "spec", f"HIRSCHBERG_LIMIT={LIMITS[algo]} changes whether the {mode} aligner raises", dict(inp, algo=algo),
+                            a.get("exc", "alignment"), b.get("exc", "alignment"), sig=f"pw:limit-exc-differs:{mode}:{algo}")
+                continue
+            if "exc" in a:
+                continue
+            if not local:
+                bump(out, f"{algo}_used", b["calls"] > 1)
             if abs(a["score"] - b["score"]) > _tol(a["score"]):
-                add_failure(out, "spec", "linear-space (Hirschberg) and full DP report different scores", inp,
-                            dict(full=a["score"], rows=a["rows"]), dict(hirschberg=b["score"], rows=b["rows"]), sig="pw:hirschberg-score-differs")
+                add_failure(out, "spec", f"HIRSCHBERG_LIMIT={LIMITS[algo]} and full DP report different scores ({mode})", dict(inp, algo=algo),
+                            dict(full=a["score"], rows=a["rows"]), {algo: b["score"], "rows": b["rows"]}, sig=f"pw:limit-score-differs:{mode}:{algo}")
+            elif local and a["rows"] != b["rows"]:
+                add_failure(out, "spec", f"HIRSCHBERG_LIMIT={LIMITS[algo]} changes the local alignment", dict(inp, algo=algo), a["rows"], b["rows"],
+                            sig=f"pw:limit-rows-differ:local:{algo}")
             else:
-                bump(out, "hirschberg_same_rows", a["rows"] == b["rows"])
-        elif not local and ("exc" in runs["full"]) != ("exc" in runs.get("hirschberg", runs["full"])):
-            add_failure(out, "spec", "only one of the two code paths raised", inp, runs["full"].get("exc"), runs["hirschberg"].get("exc"), sig="pw:hirschberg-exc-differs")
+                bump(out, f"{algo}_same_rows", a["rows"] == b["rows"])
+        # (5) the same alignment judged under the USER's matrix and gap costs (independent construction of the model)
+        ul = rep.get((idx, "user"))
+        if ul is not None and "exc" not in a and "error" not in ul:
+            cls = "asymmetric" if inp["asymmetric"] else "symmetric"
+            uopt = None if ul["score"] is None else unrat(ul["score"])
+            ups = None if ul["path_score"] is None else unrat(ul["path_score"])
+            bump(out, "user_model_checked", cls)
+            if ups is None or abs(float(ups) - a["score"]) > 1e-7 * max(1.0, abs(a["score"])):
+                add_failure(out, "spec", "reported score is not the score of the returned alignment under the user's score matrix and gap costs",
+                            dict(inp, algo="full"), dict(user_model_path_score=None if ups is None else float(ups)), dict(reported=a["score"], rows=a["rows"]),
+                            sig=f"pw-user:score-ne-user-model:{mode}:{cls}")
+            elif uopt is not None and float(uopt - ups) > 1e-7 * max(1.0, abs(a["score"])):
+                add_failure(out, "spec", "a higher scoring path exists under the user's score matrix and gap costs", dict(inp, algo="full"),
+                            dict(user_model_optimum=float(uopt), better_path=ul.get("path")), dict(returned_score=float(ups), rows=a["rows"]),
+                            sig=f"pw-user:suboptimal-under-user-model:{mode}:{cls}")
+        # (6) return_score / return_alignment variants give the same answer
+        if case.get("variants") and "exc" not in a:
+            v = run_variants(case)
+            bump(out, "return_variants", "checked")
+            if v.get("rows") != a["rows"] or v.get("score_only") is None or abs(v["score_only"] - a["score"]) > _tol(a["score"]):
+                add_failure(out, "spec", "return_score=False / return_alignment=False variants disagree with return_score=True", inp,
+                            dict(rows=a["rows"], score=a["score"]), v, sig=f"pw:return-variant-differs:{mode}")
+
+
+def run_variants(case):
+    import numpy
+    from cogent3.align import align
+
+    S = _sdict(case["moltype"], case["mat"])
+    res = {}
+    try:
+        with numpy.errstate(all="ignore"):
+            a, b = _mk(case["s1"], "a", case["moltype"]), _mk(case["s2"], "b", case["moltype"])
+            aln = align.classic_align_pairwise(a, b, S, case["d"], case["e"], case["local"])
+            d = aln.to_dict()
+            res["rows"] = [d["a"], d["b"]]
+            sc = align.classic_align_pairwise(a, b, S, case["d"], case["e"], case["local"], return_alignment=False)
+            res["score_only"] = float(sc)
+            f = align.local_pairwise if case["local"] else align.global_pairwise
+            d2 = f(a, b, S, case["d"], case["e"]).to_dict()
+            if [d2["a"], d2["b"]] != res["rows"]:
+                res["rows"] = ["wrapper differs", d2]
+    except Exception as ex:  # noqa: BLE001
+        res["exc"] = type(ex).__name__
+    return res
 
 
 def gen_pair_cases(rng, n, maxlen):
@@ -447,9 +546,17 @@ def gen_pair_cases(rng, n, maxlen):
         if rng.random() < 0.25:
             letters = letters[: rng.randint(1, 3)]
         tag, s1, s2 = gen_pair(rng, letters, maxlen)
+        r = rng.random()
+        if r < 0.06:
+            tag, s1, s2 = tag + "+lower", s1.lower(), s2
+        elif r < 0.14:
+            amb = "NRY?" if moltype == "dna" else "X"
+            s1 = "".join(rng.choice(amb) if rng.random() < 0.2 else c for c in s1)
+            tag += "+ambig"
         matname, mat = gen_matrix(rng, moltype)
         d, e = gen_gap(rng)
-        cases.append(dict(s1=s1, s2=s2, moltype=moltype, matname=matname, mat=mat, d=d, e=e, local=rng.random() < 0.4, tag=tag))
+        cases.append(dict(s1=s1, s2=s2, moltype=moltype, matname=matname, mat=mat, d=d, e=e, local=rng.random() < 0.4, tag=tag,
+                          variants=rng.random() < 0.2))
     return cases
 
 
@@ -749,27 +856,58 @@ def p2m_checks(ctx, out, rng, n):
 # --------------------------------------------------------------------------
 # apps
 # --------------------------------------------------------------------------
-def gen_seq_family(rng, k, maxlen, letters=DNA):
+def gen_seq_family(rng, k, maxlen, letters=DNA, names=None):
     base = _rand_seq(rng, letters, rng.randint(2, maxlen))
     seqs = {}
+    names = names or [f"s{i}" for i in range(k)]
     for i in range(k):
         r = rng.random()
         s = base if r < 0.15 else (_mutate(rng, base, letters) if r < 0.85 else _rand_seq(rng, letters, rng.randint(1, maxlen)))
-        seqs[f"s{i}"] = s[:maxlen] or rng.choice(letters)
+        seqs[names[i]] = s[:maxlen] or rng.choice(letters)
     return seqs
 
 
-def check_align_to_ref(out, seqs, ref_choice, triple, d, e):
+def default_matrix(moltype):
+    """the documented default of the apps: make_dna_scoring_dict(10, -1, -8) for DNA, match 10 / mismatch -1 otherwise"""
+    letters = DNA_ORDER(moltype)
+    if moltype == "dna":
+        pur = "AG"
+        return [[10 if a == b else (-1 if (a in pur) == (b in pur) else -8) for b in letters] for a in letters]
+    return [[10 if a == b else -1 for b in letters] for a in letters]
+
+
+def gen_names(rng, k):
+    """sequence names incl. names that are prefixes / substrings / superstrings of one another, with digits"""
+    style = rng.choice(["plain", "numbered", "prefix", "digits", "mixed"])
+    if style == "plain":
+        names = [f"s{i}" for i in range(k)]
+    elif style == "numbered":
+        names = rng.sample(["seq1", "seq10", "seq11", "seq100", "seq2", "seq21", "1seq", "seq"], k)
+    elif style == "prefix":
+        names = rng.sample(["a", "ab", "abc", "b", "ba", "xab", "abx", "A"], k)
+    elif style == "digits":
+        names = rng.sample(["1", "11", "12", "21", "111", "2", "10", "01"], k)
+    else:
+        names = rng.sample(["Human", "Human2", "Hum", "Mouse", "mouse", "Mouse_1", "Rat", "Rat.1"], k)
+    rng.shuffle(names)
+    return names
+
+
+def check_align_to_ref(ctx, out, seqs, ref_choice, mat, d, e, moltype="dna"):
+    """seqs: {name: seq}; ref_choice: a name or 'longest'; mat: nested list over the alphabet or None (app default)"""
     from cogent3 import get_app, make_unaligned_seqs
     from cogent3.align import align
 
-    coll = make_unaligned_seqs(seqs, moltype="dna")
-    kw = dict(insertion_penalty=d, extension_penalty=e)
-    if triple is not None:
-        kw["score_matrix"] = align.make_dna_scoring_dict(*triple)
-    inp = dict(seqs=seqs, ref=ref_choice, d=d, e=e, triple=triple)
+    coll = make_unaligned_seqs(seqs, moltype=moltype)
+    kw = dict(insertion_penalty=d, extension_penalty=e, moltype=moltype)
+    if mat is not None:
+        kw["score_matrix"] = _sdict(moltype, mat)
+    inp = dict(seqs=seqs, ref=ref_choice, d=d, e=e, mat=mat, moltype=moltype)
     out["evaluations"] += 1
     bump(out, "align_to_ref_nseqs", len(seqs))
+    bump(out, "align_to_ref_moltype", f"{moltype}:{'default' if mat is None else 'custom'}")
+    names_in = list(seqs)
+    bump(out, "a2r_ref_position", "longest" if ref_choice == "longest" else ("first" if ref_choice == names_in[0] else "last" if ref_choice == names_in[-1] else "middle"))
     try:
         app = get_app("align_to_ref", ref_seq=ref_choice, **kw)
         res = app(coll)
@@ -780,8 +918,12 @@ def check_align_to_ref(out, seqs, ref_choice, triple, d, e):
         add_failure(out, "spec", "align_to_ref returned NotCompleted", inp, "alignment", str(res)[:200], sig="a2r:notcompleted")
         return
     rows = res.to_dict()
-    if set(rows) != set(seqs) or len({len(r) for r in rows.values()}) != 1:
-        add_failure(out, "spec", "align_to_ref rows missing / unequal length", inp, "equal-length rows", rows, sig="a2r:unequal-length")
+    if sorted(rows) != sorted(seqs):
+        add_failure(out, "spec", "align_to_ref output does not have exactly the input sequences", inp, sorted(seqs), sorted(rows),
+                    sig="a2r:names-differ")
+        return
+    if len({len(r) for r in rows.values()}) != 1:
+        add_failure(out, "spec", "align_to_ref rows of unequal length", inp, "equal-length rows", rows, sig="a2r:unequal-length")
         return
     if any(rows[n].replace("-", "") != seqs[n] for n in seqs):
         add_failure(out, "spec", "align_to_ref rows do not degap to the inputs", inp, seqs, rows, sig="a2r:degap")
@@ -790,13 +932,15 @@ def check_align_to_ref(out, seqs, ref_choice, triple, d, e):
         ref_name = max((len(s), n) for n, s in seqs.items())[1]
     else:
         ref_name = ref_choice
-    Sd = align.make_dna_scoring_dict(*(triple or (10, -1, -8)))
+    umat = mat if mat is not None else default_matrix(moltype)
+    Sd = _sdict(moltype, umat)
     ref_seq = coll.get_seq(ref_name)
     names = [n for n in seqs if n != ref_name]
     pairs = []
     for n in names:
         pw = align.global_pairwise(ref_seq, coll.get_seq(n), Sd, d, e).to_dict()
         pairs.append((pw[ref_name], pw[n]))
+    bad = False
     for k, n in enumerate(names):
         if strip_common(rows[ref_name], rows[n]) != pairs[k]:
             c = classify_p2m(seqs[ref_name], pairs, k)
@@ -804,44 +948,147 @@ def check_align_to_ref(out, seqs, ref_choice, triple, d, e):
             add_failure(out, "spec", "align_to_ref does not keep a sequence's pairwise alignment with the reference",
                         dict(inp, seq=n, ref_name=ref_name, pairwise=[list(p) for p in pairs]), list(pairs[k]),
                         list(strip_common(rows[ref_name], rows[n])) + [dict(merged=rows)], sig=f"a2r:pairwise-not-kept:{c}")
+            bad = True
             break
+    # every projected pairwise alignment is optimal under the USER's matrix and gap costs (independent oracle)
+    if not bad and getattr(ctx, "driver", None) is not None:
+        reqs, who = [], []
+        for n in names:
+            uh = user_hmm(moltype, umat, d, e, seqs[ref_name], seqs[n])
+            pr = strip_common(rows[ref_name], rows[n])
+            path = rows_to_path(uh, *pr) if uh is not None else None
+            if path is not None:
+                reqs.append(("viterbi", hmm_request(uh, False, path, 0, 0)))
+                who.append((n, pr))
+        for (n, pr), ul in zip(who, ctx.driver.batch(reqs)):
+            uopt = None if ul.get("score") is None else unrat(ul["score"])
+            ups = None if ul.get("path_score") is None else unrat(ul["path_score"])
+            bump(out, "a2r_projection_checked", "custom" if mat is not None else "default")
+            if uopt is None or ups is None or float(uopt - ups) > 1e-7 * max(1.0, abs(float(uopt))):
+                add_failure(out, "spec", "align_to_ref: the alignment of a sequence with the reference is not optimal under the user's score matrix and gap costs",
+                            dict(inp, seq=n, ref_name=ref_name), dict(user_model_optimum=None if uopt is None else float(uopt), better_path=ul.get("path")),
+                            dict(projected=list(pr), score=None if ups is None else float(ups)),
+                            sig=f"a2r:projection-suboptimal-under-user-model:{moltype}:{'custom' if mat is not None else 'default'}")
+                break
     if len(seqs) >= 3 and any("-" in r for r in rows.values()):
-        out["nontrivial"].add(("a2r", str(sorted(seqs.items())), ref_choice, d, e))
+        out["nontrivial"].add(("a2r", str(sorted(seqs.items())), ref_choice, d, e, moltype))
     if len(out["samples"]) < 8 and len(seqs) >= 3 and any("-" in r for r in rows.values()) and not any(s.get("app") == "align_to_ref" for s in out["samples"]):
         out["samples"].append(dict(app="align_to_ref", seqs=seqs, ref=ref_name, rows=rows))
 
 
-def check_progressive(out, seqs, model, tree):
+def check_sw_app(ctx, out, s1, s2, moltype, mat, d, e, names=("a", "b")):
+    """the smith_waterman app with a custom (or default) matrix under every HIRSCHBERG_LIMIT: no exception / NotCompleted,
+    identical result, rows are contiguous parts, sw_score = score of the returned local path under the USER's parameters,
+    and no local path scores higher under them (Lean optimum)"""
+    import numpy
+    from cogent3 import get_app, make_unaligned_seqs
+    from cogent3.align import pairwise
+
+    inp = dict(s1=s1, s2=s2, moltype=moltype, mat=mat, d=d, e=e, names=list(names))
+    cls = f"{moltype}:{'default' if mat is None else 'custom'}"
+    out["evaluations"] += 1
+    bump(out, "sw_app", cls)
+    kw = dict(insertion_penalty=d, extension_penalty=e, moltype=moltype)
+    if mat is not None:
+        kw["score_matrix"] = _sdict(moltype, mat)
+    results = {}
+    old = pairwise.HIRSCHBERG_LIMIT
+    for algo, lim in LIMITS.items():
+        pairwise.HIRSCHBERG_LIMIT = lim
+        try:
+            with numpy.errstate(all="ignore"):
+                coll = make_unaligned_seqs({names[0]: s1, names[1]: s2}, moltype=moltype)
+                res = get_app("smith_waterman", **kw)(coll)
+            if type(res).__name__ == "NotCompleted":
+                results[algo] = dict(exc="NotCompleted: " + str(getattr(res, "message", ""))[:80])
+            else:
+                rows = res.to_dict()
+                results[algo] = dict(rows=rows, score=float(res.info["align_params"]["sw_score"]))
+        except Exception as ex:  # noqa: BLE001
+            results[algo] = dict(exc=type(ex).__name__)
+        finally:
+            pairwise.HIRSCHBERG_LIMIT = old
+    a = results["full"]
+    for algo in ("hirschberg", "mixed"):
+        b = results[algo]
+        if a != b:
+            add_failure(out, "spec", f"smith_waterman app depends on HIRSCHBERG_LIMIT={LIMITS[algo]}", dict(inp, algo=algo), a, b,
+                        sig=f"sw:limit-differs:{algo}:{'exc' if ('exc' in a) != ('exc' in b) else 'result'}")
+            return
+    if "exc" in a:
+        add_failure(out, "spec", "smith_waterman app raised / returned NotCompleted", inp, "alignment", a["exc"], sig=f"sw:raised:{cls}")
+        return
+    rows = a["rows"]
+    if sorted(rows) != sorted(names):
+        add_failure(out, "spec", "smith_waterman output does not have exactly the input sequences", inp, sorted(names), sorted(rows), sig="sw:names-differ")
+        return
+    r1, r2 = rows[names[0]], rows[names[1]]
+    d1, d2 = r1.replace("-", ""), r2.replace("-", "")
+    if len(r1) != len(r2) or d1 not in s1 or d2 not in s2 or not d1 or not d2:
+        add_failure(out, "spec", "smith_waterman rows are not equal-length contiguous parts of the inputs", inp, [s1, s2], [r1, r2], sig="sw:degap")
+        return
+    umat = mat if mat is not None else default_matrix(moltype)
+    uh = user_hmm(moltype, umat, d, e, s1, s2)
+    if uh is None or getattr(ctx, "driver", None) is None:
+        return
+    path = rows_to_path(uh, r1, r2)
+    if path is None:
+        add_failure(out, "spec", "smith_waterman alignment has an all-gap column", inp, "none", [r1, r2], sig="sw:all-gap-column")
+        return
+    ul = ctx.driver.batch([("viterbi", hmm_request(uh, True, path, s1.find(d1), s2.find(d2)))])[0]
+    uopt = None if ul.get("score") is None else unrat(ul["score"])
+    ups = None if ul.get("path_score") is None else unrat(ul["path_score"])
+    t = 1e-7 * max(1.0, abs(a["score"]))
+    if ups is None or abs(float(ups) - a["score"]) > t:
+        add_failure(out, "spec", "smith_waterman sw_score is not the score of the returned local alignment under the user's score matrix and gap costs",
+                    inp, dict(user_model_path_score=None if ups is None else float(ups), user_model_optimum=None if uopt is None else float(uopt)),
+                    dict(sw_score=a["score"], rows=[r1, r2]), sig=f"sw:score-ne-user-model:{cls}")
+    elif uopt is not None and float(uopt - ups) > t:
+        add_failure(out, "spec", "smith_waterman: a higher scoring local alignment exists under the user's score matrix and gap costs", inp,
+                    dict(user_model_optimum=float(uopt), better_path=ul.get("path")), dict(returned_score=float(ups), rows=[r1, r2]),
+                    sig=f"sw:suboptimal-under-user-model:{cls}")
+    elif len(d1) >= 2:
+        out["nontrivial"].add(("sw", s1, s2, cls, d, e))
+
+
+def check_progressive(out, seqs, model, tree, params=None):
     from cogent3 import get_app, make_unaligned_seqs
 
-    coll = make_unaligned_seqs(seqs, moltype="dna" if model != "protein" else "protein")
-    inp = dict(seqs=seqs, model=model, guide_tree=tree)
+    params = params or {}
+    moltype = "protein" if model in ("protein", "JTT92", "WG01") else "dna"
+    coll = make_unaligned_seqs(seqs, moltype=moltype)
+    inp = dict(seqs=seqs, model=model, guide_tree=tree, params=params)
     out["evaluations"] += 1
     bump(out, "progressive_nseqs", len(seqs))
+    bump(out, "progressive_model", model)
+    bump(out, "progressive_params", ",".join(sorted(params)) or "default")
     try:
-        app = get_app("progressive_align", model, guide_tree=tree)
+        app = get_app("progressive_align", model, guide_tree=tree, **params)
         res = app(coll)
     except Exception as ex:  # noqa: BLE001
         add_failure(out, "spec", "progressive_align raised", inp, "alignment", type(ex).__name__ + ": " + str(ex)[:100], sig=f"prog:raised:{type(ex).__name__}")
         return
     if type(res).__name__ == "NotCompleted":
-        bump(out, "progressive_notcompleted", str(getattr(res, "message", ""))[:60])
+        add_failure(out, "spec", "progressive_align returned NotCompleted", inp, "alignment", str(getattr(res, "message", res))[:160], sig="prog:notcompleted")
         return
     rows = res.to_dict()
-    if set(rows) != set(seqs) or len({len(r) for r in rows.values()}) != 1:
-        add_failure(out, "spec", "progressive_align rows missing / unequal length", inp, "equal-length rows", rows, sig="prog:unequal-length")
+    if sorted(rows) != sorted(seqs):
+        add_failure(out, "spec", "progressive_align output does not have exactly the input sequences", inp, sorted(seqs), sorted(rows), sig="prog:names-differ")
+        return
+    if len({len(r) for r in rows.values()}) != 1:
+        add_failure(out, "spec", "progressive_align rows of unequal length", inp, "equal-length rows", rows, sig="prog:unequal-length")
         return
     if any(rows[n].replace("-", "") != seqs[n] for n in seqs):
         add_failure(out, "spec", "progressive_align rows do not degap to the inputs", inp, seqs, rows, sig="prog:degap")
         return
     if len({len(s) for s in seqs.values()}) > 1:
-        out["nontrivial"].add(("prog", str(sorted(seqs.items())), model))
+        out["nontrivial"].add(("prog", str(sorted(seqs.items())), model, str(params)))
     if not any(s.get("app") == "progressive_align" for s in out["samples"]) and any("-" in r for r in rows.values()):
         out["samples"].append(dict(app="progressive_align", seqs=seqs, model=model, rows=rows))
 
 
 def _caterpillar(names, rng):
-    names = list(names)
+    names = [f"'{n}'" if not n.isalnum() else n for n in names]  # newick: unquoted '_' means a blank
     rng.shuffle(names)
     t = f"({names[0]}:0.1,{names[1]}:0.2)"
     for n in names[2:-1]:
@@ -874,18 +1121,37 @@ def spec_check(ctx, budget):
     # exhaustive small p2m domain: ref of length 2, two pairs with <=1 gap run each is covered by the random stream; plus seeded random
     p2m_checks(ctx, out, rng, 1000 * budget)
     # apps
-    for _ in range(40 * budget):
+    LET = {"dna": DNA, "rna": "ACGU", "protein": PROT}
+    for t in range(40 * budget):
         k = rng.randint(3, 6)
-        seqs = gen_seq_family(rng, k, 14)
-        triple = None if rng.random() < 0.5 else rng.choice([(10, -1, -8), (5, -4, -4), (2, -1, -1)])
+        moltype = "dna" if rng.random() < 0.6 else rng.choice(["rna", "protein"])
+        seqs = gen_seq_family(rng, k, 14, LET[moltype], gen_names(rng, k))
+        mat = None if rng.random() < 0.4 else gen_matrix(rng, moltype, symmetric=True)[1]
         d, e = rng.choice([(20, 2), (10, 2), (5, 1), (2, 1)])
-        ref = "longest" if rng.random() < 0.5 else rng.choice(sorted(seqs))
-        check_align_to_ref(out, seqs, ref, triple, d, e)
-    for _ in range(10 * budget):
+        names = list(seqs)
+        ref = ["longest", names[0], names[-1], names[len(names) // 2]][t % 4]
+        check_align_to_ref(ctx, out, seqs, ref, mat, d, e, moltype)
+    for t in range(40 * budget):
+        moltype = ["dna", "protein", "rna"][t % 3]
+        tag, s1, s2 = gen_pair(rng, LET[moltype], 20)
+        mat = None if rng.random() < 0.25 else gen_matrix(rng, moltype, symmetric=True)[1]
+        d, e = gen_gap(rng)
+        check_sw_app(ctx, out, s1, s2, moltype, mat, d, e, names=rng.choice([("a", "b"), ("seq1", "seq10"), ("x1", "x")]))
+    for t in range(10 * budget):
         k = rng.randint(3, 6)
-        seqs = gen_seq_family(rng, k, 14)
+        seqs = gen_seq_family(rng, k, 14, DNA, gen_names(rng, k))
         tree = None if rng.random() < 0.5 else _caterpillar(seqs, rng)
-        check_progressive(out, seqs, rng.choice(["nucleotide", "HKY85", "F81"]), tree)
+        params = {}
+        if rng.random() < 0.5:
+            params["indel_rate"] = rng.choice([1e-10, 1e-3, 0.05])
+        if rng.random() < 0.3:
+            params["indel_length"] = rng.choice([0.1, 0.3, 0.6])
+        if rng.random() < 0.2:
+            params["distance"] = "paralinear"
+        check_progressive(out, seqs, rng.choice(["nucleotide", "HKY85", "F81", "TN93"]), tree, params)
+    if budget >= 1:
+        pseqs = gen_seq_family(rng, 3, 10, PROT, gen_names(rng, 3))
+        check_progressive(out, pseqs, "protein", None)
     return out
 
 
@@ -903,6 +1169,8 @@ def match_finding(f, k):
         return False
     if "class" in r and not f["sig"].endswith(":" + r["class"]):
         return False
+    if "asymmetric" in r and bool(inp.get("asymmetric")) != r["asymmetric"]:
+        return False
     return True
 
 
@@ -911,11 +1179,18 @@ def check_witness(ctx, w):
     if w.get("kind") == "p2m":
         check_p2m(out, w["ref"], [tuple(p) for p in w["pairs"]], True, source="witness")
     elif w.get("kind") == "a2r":
-        check_align_to_ref(out, w["seqs"], w["ref"], w.get("triple"), w["d"], w["e"])
+        check_align_to_ref(ctx, out, w["seqs"], w["ref"], w.get("mat"), w["d"], w["e"], w.get("moltype", "dna"))
     elif w.get("kind") == "pw" and getattr(ctx, "driver", None) is not None:
         check_pair_cases(ctx, out, [dict(w, tag="witness")])
     fs = [f for f in out["failures"] if f["kind"] == "spec"]
     return fs[0] if fs else None
+
+
+def _drv():
+    from .common import Driver, lake_build
+
+    lake_build([DRIVER])
+    return Driver(DRIVER)
 
 
 def replay(ctx, data):
@@ -926,14 +1201,15 @@ def replay(ctx, data):
     if sig.startswith("p2m:"):
         check_p2m(out, inp["ref"], [tuple(p) for p in inp["pairs"]], inp.get("layout") == "plausible")
     elif sig.startswith("a2r:"):
-        check_align_to_ref(out, inp["seqs"], inp["ref"], inp.get("triple"), inp["d"], inp["e"])
+        ctx.driver = _drv()
+        check_align_to_ref(ctx, out, inp["seqs"], inp["ref"], inp.get("mat"), inp["d"], inp["e"], inp.get("moltype", "dna"))
+    elif sig.startswith("sw:"):
+        ctx.driver = _drv()
+        check_sw_app(ctx, out, inp["s1"], inp["s2"], inp["moltype"], inp.get("mat"), inp["d"], inp["e"], tuple(inp.get("names", ("a", "b"))))
     elif sig.startswith("prog:"):
-        check_progressive(out, inp["seqs"], inp["model"], inp.get("guide_tree"))
-    elif sig.startswith("pw:"):
-        from .common import Driver, lake_build
-
-        ok, _ = lake_build([DRIVER])
-        ctx.driver = Driver(DRIVER)
+        check_progressive(out, inp["seqs"], inp["model"], inp.get("guide_tree"), inp.get("params"))
+    elif sig.startswith("pw"):
+        ctx.driver = _drv()
         case = dict(inp, tag="replay")
         case.setdefault("matname", "replay")
         check_pair_cases(ctx, out, [case])
